@@ -227,6 +227,35 @@ end RM
 
 open RM
 
+/-- what the element loop of `Renderable for Template` does to an error of element `i`: an error without
+    a position gets `mapping[i]`; an error without a template name gets the template's -/
+def decorateRender (tname : Option Str) (mapping : List (Nat × Nat)) (er : RenderError) : RenderError :=
+  let er := if er.line.isNone then
+      match mapping.head? with
+      | some (l, c) => { er with line := some l, col := some c }
+      | none => er
+    else er
+  if er.name.isNone then { er with name := tname } else er
+
+/-- the same in `Evaluable for Template` (decorators): the name is always the template's -/
+def decorateEval (tname : Option Str) (mapping : List (Nat × Nat)) (er : RenderError) : RenderError :=
+  let er := if er.line.isNone then
+      match mapping.head? with
+      | some (l, c) => { er with line := some l, col := some c }
+      | none => er
+    else er
+  { er with name := tname }
+
+theorem decorateRender_reason (tname : Option Str) (mapping : List (Nat × Nat)) (er : RenderError) :
+    (decorateRender tname mapping er).reason = er.reason := by
+  unfold decorateRender; simp only []; repeat' split
+  all_goals rfl
+
+theorem decorateEval_reason (tname : Option Str) (mapping : List (Nat × Nat)) (er : RenderError) :
+    (decorateEval tname mapping er).reason = er.reason := by
+  unfold decorateEval; simp only []; repeat' split
+  all_goals rfl
+
 /-! ## json paths at render time -/
 
 /-- `merge_json_path` -/
@@ -1051,13 +1080,7 @@ mutual
       let one : RM Unit := match e with
         | .decoExpr dt | .decoBlock dt => evalDecorator reg root fuel dt
         | _ => pure ()
-      RM.mapErr one (fun er =>
-        let er := if er.line.isNone then
-            match mapping.head? with
-            | some (l, c) => { er with line := some l, col := some c }
-            | none => er
-          else er
-        { er with name := tname })
+      RM.mapErr one (decorateEval tname mapping)
       evalElems reg root fuel tname es (mapping.drop 1)
 
   /-- the element loop of `Renderable for Template` -/
@@ -1065,13 +1088,7 @@ mutual
     | 0, _, _, _ => outOfFuel
     | _ + 1, _, [], _ => pure ()
     | fuel + 1, tname, e :: es, mapping => do
-      RM.mapErr (renderElem reg root fuel e) (fun er =>
-        let er := if er.line.isNone then
-            match mapping.head? with
-            | some (l, c) => { er with line := some l, col := some c }
-            | none => er
-          else er
-        if er.name.isNone then { er with name := tname } else er)
+      RM.mapErr (renderElem reg root fuel e) (decorateRender tname mapping)
       renderElems reg root fuel tname es (mapping.drop 1)
 
   /-- `Renderable for Template` -/
